@@ -370,11 +370,29 @@ def run_prefix_codec(rep, facts):
     rep.floor("R16.6", "prefix encoder obligations", n, 2)
 
 
+def run_prefix_decoder(rep, facts):
+    """R16.7: NVIter::next reads every error of VarInt::read as "the pair is incomplete" and stops for good (R16.1): that is "stops at the first
+    incomplete pair" only while the prefix decoder fails on truncated input and on nothing else, and yields the encoded value
+    (C15 O4 read/forms, O5, re-evaluated)."""
+    from . import c15
+    rep.rule("R16.7", "the length-prefix decoder NVIter relies on accepts every complete one- or four-byte form and fails only when its input is truncated "
+                      "(C15 O4 read/forms, O5): a decoder that rejects a complete prefix makes the iterator stop in front of a complete pair")
+    sr = check.Report("tmp", "quick")
+    c15.run_codec(sr, facts)
+    n = 0
+    for i in sr.instances:
+        if i["instance"].startswith("read/"):
+            n += 1
+            (rep.ok if i["status"] == "ok" else rep.violation)("R16.7", i["instance"], i["detail"], i["loc"])
+    rep.floor("R16.7", "prefix decoder obligations", n, 2)
+
+
 def main(rep, tier):
     f = F.load(("async", "http"))
     rep.configs.append({"features": "async,http", "profile": "debug", "bodies": len(f.bodies)})
     check.guard(rep, "R16", run, f)
     check.guard(rep, "R16.6", run_prefix_codec, f)
+    check.guard(rep, "R16.7", run_prefix_decoder, f)
     rep.floor("R16", "rule instances", len([i for i in rep.instances if i["status"] == "ok"]), 6)
     import check as _c
     _c.witnesses(rep, "C16", f)
